@@ -65,4 +65,283 @@ theorem cipher_ne_nil (p : Bytes) (m : Mask) (off : Nat) (q : Bytes) (h : cipher
 theorem cipher_nil (m : Mask) (off : Nat) : cipher [] m off = some [] := by
   simp [cipher, xorFrom]
 
+/-- one read of the frame stack with the validator off -/
+theorem frameRead_off_shape (r : Rd) (s : Src) (k : Nat) (hoff : r.utf8on = false)
+    (bytes : Bytes) (n : Nat) (e : Option RErr) (r' : Rd) (s' : Src)
+    (h : r.frameRead s k = some (bytes, n, e, r', s')) :
+    n = bytes.length ∧ r'.utf8on = false
+    ∧ ((r.rawN = 0 ∧ bytes = [] ∧ e = some .eof ∧ r'.rawN = 0)
+       ∨ (r.rawN ≠ 0 ∧ (e = some .eof → bytes ≠ [] ∧ r'.rawN = 0) ∧ (e = none → bytes = [] → r'.rawN ≠ 0))) := by
+  unfold Rd.frameRead Rd.rawRead at h
+  by_cases h0 : r.rawN = 0
+  · simp only [h0, if_true] at h
+    by_cases hm : r.masked = true
+    · simp only [hm, if_true, cipher_nil, hoff, Bool.false_eq_true, if_false, Option.some.injEq, Prod.mk.injEq] at h
+      obtain ⟨rfl, rfl, rfl, rfl, rfl⟩ := h
+      exact ⟨rfl, by simp [hoff], Or.inl ⟨h0, rfl, rfl, by simp [h0]⟩⟩
+    · have hm' : r.masked = false := by simpa using hm
+      simp only [hm', Bool.false_eq_true, if_false, hoff, Option.some.injEq, Prod.mk.injEq] at h
+      obtain ⟨rfl, rfl, rfl, rfl, rfl⟩ := h
+      exact ⟨rfl, hoff, Or.inl ⟨h0, rfl, rfl, h0⟩⟩
+  · simp only [h0, if_false] at h
+    have hlen := src_read_len s (min k r.rawN)
+    rcases hr : s.read (min k r.rawN) with ⟨got, e0, s0⟩
+    rw [hr] at h hlen
+    simp only at h hlen
+    have hgl : got.length ≤ r.rawN := by omega
+    by_cases hm : r.masked = true
+    · simp only [hm, if_true] at h
+      rcases hc : cipher got r.mask r.cpos with _ | plain
+      · rw [hc] at h; simp at h
+      · rw [hc] at h
+        simp only [hoff, Bool.false_eq_true, if_false, Option.some.injEq, Prod.mk.injEq] at h
+        obtain ⟨rfl, rfl, he, rfl, _⟩ := h
+        have hp2 : got ≠ [] → plain ≠ [] := cipher_ne_nil got r.mask r.cpos plain hc
+        refine ⟨rfl, by simp [hoff], Or.inr ⟨h0, ?_, ?_⟩⟩
+        · intro hee
+          rw [hee] at he
+          cases e0 with
+          | none => simp at he
+          | some f =>
+            cases f with
+            | fail => simp at he
+            | eof =>
+              by_cases hpos : r.rawN - got.length > 0
+              · simp [hpos] at he
+              · have hgn : got ≠ [] := by
+                  intro hg; rw [hg] at hpos; simp at hpos; omega
+                exact ⟨hp2 hgn, by simp; omega⟩
+        · intro _ hb
+          have hg : got = [] := by
+            by_cases hg : got = []
+            · exact hg
+            · exact absurd hb (hp2 hg)
+          simp [hg]; exact h0
+    · have hm' : r.masked = false := by simpa using hm
+      simp only [hm', Bool.false_eq_true, if_false, hoff, Option.some.injEq, Prod.mk.injEq] at h
+      obtain ⟨rfl, rfl, he, rfl, _⟩ := h
+      refine ⟨rfl, rfl, Or.inr ⟨h0, ?_, ?_⟩⟩
+      · intro hee
+        rw [hee] at he
+        cases e0 with
+        | none => simp at he
+        | some f =>
+          cases f with
+          | fail => simp at he
+          | eof =>
+            by_cases hpos : r.rawN - got.length > 0
+            · simp [hpos] at he
+            · have hgn : got ≠ [] := by
+                intro hg; rw [hg] at hpos; simp at hpos; omega
+              exact ⟨hgn, by simp; omega⟩
+      · intro _ hb
+        simp [hb]; exact h0
+
+/-- reading a frame (validator off) to its CLEAN end has delivered bytes, unless the frame was empty to begin with -/
+theorem pull_eof_nonempty (k : Nat) (fuel : Nat) : ∀ (r : Rd) (s : Src) (cx : Ctx) (acc : List Bytes),
+    r.utf8on = false → (r.rawN ≠ 0 ∨ ∃ c ∈ acc, c ≠ []) →
+    (Rd.pull false k none fuel r s cx acc).2.1 = .eof → ∃ c ∈ (Rd.pull false k none fuel r s cx acc).1, c ≠ [] := by
+  induction fuel with
+  | zero => intro r s cx acc _ _ h; simp [Rd.pull] at h
+  | succ n ih =>
+    intro r s cx acc hoff hP h
+    rw [Rd.pull] at h ⊢
+    simp only [Bool.false_eq_true, if_false] at h ⊢
+    rcases hfr : r.frameRead s k with _ | ⟨bytes, m, e, r', s'⟩
+    · rw [hfr] at h; simp at h
+    · rw [hfr] at h
+      simp only at h ⊢
+      obtain ⟨hm, hoff', hshape⟩ := frameRead_off_shape r s k hoff bytes m e r' s' hfr
+      subst hm
+      have htake : bytes.take bytes.length = bytes := List.take_length
+      cases e with
+      | some x =>
+        simp only at h ⊢
+        subst h
+        rcases hshape with ⟨h0, hb, _, _⟩ | ⟨h0, he, _⟩
+        · -- the frame was already at its end: something had been read before
+          rcases hP with hP | ⟨c, hc, hne⟩
+          · exact absurd h0 hP
+          · refine ⟨c, ?_, hne⟩
+            subst hb; simp [hc]
+        · obtain ⟨hbne, _⟩ := he rfl
+          have hl : bytes.length ≠ 0 := by intro hz; exact hbne (List.length_eq_zero_iff.mp hz)
+          exact ⟨bytes, by simp [hl, htake], hbne⟩
+      | none =>
+        simp only at h ⊢
+        apply ih r' s' cx _ hoff' _ h
+        rcases hshape with ⟨_, _, he, _⟩ | ⟨h0, _, hn⟩
+        · cases he
+        · by_cases hb : bytes = []
+          · left; exact hn rfl hb
+          · right
+            have hl : bytes.length ≠ 0 := by intro hz; exact hb (List.length_eq_zero_iff.mp hz)
+            exact ⟨bytes, by simp [hl, htake], hb⟩
+
+theorem endErr_ne_eof (src : CtlSrc) : src.endErr ≠ some .eof := by
+  unfold CtlSrc.endErr
+  cases src.fin <;> simp
+
+theorem werrToC_ne_src (er : WErr) (x : RdErr) : werrToC er ≠ .src x := by
+  cases er <;> simp [werrToC]
+
+theorem handlePing_ne_src_eof (client : Bool) (h : Header) (src : CtlSrc) (e e' : Env) :
+    handlePing client h src false e ≠ some (some (.src .eof), e') := by
+  intro hh
+  unfold handlePing at hh
+  by_cases hz : h.len = 0
+  · simp only [hz, if_true] at hh
+    split at hh <;> simp at hh
+  · simp only [hz, if_false, Bool.false_eq_true] at hh
+    split at hh
+    · cases hh
+    · split at hh
+      · cases hh
+      · rename_i er _ e1 _
+        simp only [Option.some.injEq, Prod.mk.injEq] at hh
+        exact werrToC_ne_src er .eof hh.1
+      · split at hh
+        · rename_i re hre
+          simp only [Option.some.injEq, Prod.mk.injEq, CErr.src.injEq] at hh
+          exact endErr_ne_eof src (by rw [hre, hh.1])
+        · split at hh
+          · cases hh
+          · rename_i er _ e2 _
+            simp only [Option.some.injEq, Prod.mk.injEq] at hh
+            cases er with
+            | none => simp at hh
+            | some w => simp at hh; exact werrToC_ne_src w .eof hh.1
+
+theorem handlePong_ne_src_eof (h : Header) (src : CtlSrc) (e e' : Env) :
+    handlePong h src e ≠ some (some (.src .eof), e') := by
+  intro hh
+  unfold handlePong at hh
+  split at hh
+  · simp at hh
+  · simp only [Option.some.injEq, Prod.mk.injEq] at hh
+    cases he : src.endErr with
+    | none => rw [he] at hh; simp at hh
+    | some x =>
+      rw [he] at hh; simp at hh
+      exact endErr_ne_eof src (by rw [he, hh.1])
+
+/-- HandleClose reports io.EOF only when it was given NOTHING of a non-empty payload and the source ended cleanly -/
+theorem handleClose_src_eof (client : Bool) (h : Header) (src : CtlSrc) (e e' : Env) (errText : ProtoErr → Bytes)
+    (hh : handleClose client h src false e errText = some (some (.src .eof), e')) :
+    src.bytes = [] ∧ src.ueofEnd = false ∧ src.endErr ≠ some .fail := by
+  unfold handleClose at hh
+  by_cases hz : h.len = 0
+  · simp only [hz, if_true] at hh
+    split at hh <;> simp at hh
+  · simp only [hz, if_false, Bool.false_eq_true] at hh
+    by_cases hlt : src.bytes.length < h.len
+    · simp only [hlt, if_true, Option.some.injEq, Prod.mk.injEq, CErr.src.injEq] at hh
+      obtain ⟨hre, _⟩ := hh
+      split at hre
+      · cases hre
+      · rename_i hnf
+        by_cases hc : src.bytes.isEmpty = true ∧ ¬ src.ueofEnd = true
+        · refine ⟨by simpa using hc.1, by simpa using hc.2, ?_⟩
+          intro hf; exact hnf hf
+        · simp [hc] at hre
+          exact ⟨hre.1, hre.2, fun hf => hnf hf⟩
+    · simp only [hlt, if_false] at hh
+      exfalso
+      revert hh
+      repeat' split
+      all_goals (intro hh; simp at hh)
+      all_goals (try exact absurd hh.1 (werrToC_ne_src _ .eof))
+
+theorem handleControl_src_eof (client : Bool) (h : Header) (src : CtlSrc) (e e' : Env) (errText : ProtoErr → Bytes)
+    (hh : handleControl client h src false e errText = some (some (.src .eof), e')) :
+    src.bytes = [] ∧ src.ueofEnd = false ∧ src.endErr ≠ some .fail := by
+  unfold handleControl at hh
+  split at hh
+  · exact absurd hh (handlePing_ne_src_eof client h src e e')
+  · split at hh
+    · exact absurd hh (handlePong_ne_src_eof h src e e')
+    · split at hh
+      · exact handleClose_src_eof client h src e e' errText hh
+      · simp at hh
+
+/-- **wsutil.ControlFrameHandler never reports io.EOF** for a control frame whose announced payload it was handed
+    (`rawN = Length`): a payload that ends early is io.ErrUnexpectedEOF or the transport's failure. -/
+theorem ctlHandler_ne_eof (client : Bool) (errText : ProtoErr → Bytes) (h : Header) (r : Rd) (s : Src) (cx : Ctx)
+    (hoff : r.utf8on = false) (hraw : r.rawN = h.len) :
+    (controlFrameHandler client errText false none h r s cx).err ≠ some .eof := by
+  unfold controlFrameHandler
+  by_cases hnp : h.len ≠ 0 ∧ (h.op = opPing ∨ h.op = opPong ∨ h.op = opClose)
+  · have hnn : ¬ ¬ (h.len ≠ 0 ∧ (h.op = opPing ∨ h.op = opPong ∨ h.op = opClose)) := fun x => x hnp
+    simp only [if_neg hnn]
+    have hne := pull_eof_nonempty 32768 (pullFuel s) r s cx [] hoff (Or.inl (by rw [hraw]; exact hnp.1))
+    rcases hp : Rd.pull false 32768 none (pullFuel s) r s cx [] with ⟨chunks, endE, r', s', cx'⟩
+    rw [hp] at hne
+    simp only at hne ⊢
+    cases hre : rdErrOf endE with
+    | none =>
+      simp only
+      intro heq
+      simp only [Option.some.injEq] at heq
+      rw [heq] at hre; simp [rdErrOf] at hre
+    | some x =>
+      simp only
+      cases hhc : handleControl client h { chunks := chunks, fin := if endE = RErr.fail then Fin.fail else Fin.eof, ueofEnd := decide (endE = RErr.ueof) } false cx'.env errText with
+      | none => simp
+      | some p =>
+        obtain ⟨er, env'⟩ := p
+        simp only
+        intro heq
+        cases er with
+        | none => simp at heq
+        | some ce =>
+          simp only [Option.map_some, Option.some.injEq] at heq
+          have hce : ce = .src .eof := by
+            cases ce <;> simp [cerrToR] at heq
+            rename_i re; cases re <;> simp [cerrToR] at heq ⊢
+          subst hce
+          obtain ⟨hb, hu, hf⟩ := handleControl_src_eof client h _ cx'.env env' errText hhc
+          -- the source ended cleanly and handed over nothing: but a clean end means bytes were read
+          have hE : endE = .eof := by
+            cases endE <;> simp [rdErrOf] at hre
+            · rfl
+            · simp at hu
+            · simp [CtlSrc.endErr] at hf
+          obtain ⟨c, hc, hcne⟩ := hne hE
+          simp only [CtlSrc.bytes] at hb
+          have : c = [] := by
+            have := List.flatten_eq_nil_iff.mp hb c hc
+            exact this
+          exact hcne this
+  · simp only [if_pos hnp]
+    cases hhc : handleControl client h { chunks := [] } false cx.env errText with
+    | none => simp
+    | some p =>
+      obtain ⟨er, env'⟩ := p
+      simp only
+      intro heq
+      cases er with
+      | none => simp at heq
+      | some ce =>
+        simp only [Option.map_some, Option.some.injEq] at heq
+        have hce : ce = .src .eof := by
+          cases ce <;> simp [cerrToR] at heq
+          rename_i re; cases re <;> simp [cerrToR] at heq ⊢
+        subst hce
+        -- handed nothing: only HandleClose of a non-empty payload says so, and that needs the payload
+        unfold handleControl at hhc
+        split at hhc
+        · exact absurd hhc (handlePing_ne_src_eof client h _ cx.env env')
+        · split at hhc
+          · exact absurd hhc (handlePong_ne_src_eof h _ cx.env env')
+          · split at hhc
+            · rename_i hnping hnpong hclose
+              have hz : h.len = 0 := by
+                by_cases hz : h.len = 0
+                · exact hz
+                · exact absurd ⟨hz, Or.inr (Or.inr hclose)⟩ hnp
+              unfold handleClose at hhc
+              simp only [hz, if_true] at hhc
+              split at hhc <;> simp at hhc
+            · simp at hhc
+
 end Ws.RdBin
